@@ -63,8 +63,8 @@ Init ==
 \* ------------------------------------------------------------------ the library's operations
 ExplicitAt(i) == IF midpos = i THEN 2 ELSE 0
 LayerRec(type, pos, nm, ab) == [type |-> type, pos |-> pos, name |-> nm, ab |-> ab]
-Base == [kind |-> "exec", chain |-> <<>>, name |-> basename]          \* name 0 = "default"
-Bind(ex) == [ex EXCEPT !.kind = "bound"]                                \* BoundCallable(executor, fn)
+Base == [kind |-> "exec", chain |-> <<>>, name |-> basename, bname |-> basename]   \* name 0 = "default"
+Bind(ex) == [ex EXCEPT !.kind = "bound", !.bname = ex.name]             \* BoundCallable(executor, fn): copies the name
 
 \* obj.with_<type>(name = explicit if > 0)
 With(obj, type, pos, explicit) ==
@@ -73,7 +73,9 @@ With(obj, type, pos, explicit) ==
          LET nm == IF explicit > 0 THEN explicit ELSE obj.name
          IN [obj EXCEPT !.chain = Append(@, LayerRec(type, pos, nm, FALSE)), !.name = nm]
     ELSE \* Executors._customize on a BoundCallable: new layer on its executor, fn bound again
-         LET seen == IF AsShipped_D10 THEN 0 ELSE obj.name
+         \* seeded model bug stale_bind_name (change C19-r4m1): the callable is shallow-copied around the new executor and
+         \* keeps the name captured at bind() time - a layer named explicitly after bind() is not inherited from
+         LET seen == IF AsShipped_D10 THEN 0 ELSE IF Bug = "stale_bind_name" THEN obj.bname ELSE obj.name
              nm   == IF explicit > 0 THEN explicit ELSE seen
              kept == IF Bug = "drop_chain" THEN <<>> ELSE obj.chain
          IN [obj EXCEPT !.chain = Append(kept, LayerRec(type, pos, nm, TRUE)), !.name = nm]
